@@ -105,7 +105,8 @@ def main():
             exp, readable = obs_att(p, nm)
             em.add("obs_att T (unpack %s)" % vlib.blob(nm.encode()), exp, [], "attribute name %s (data field %s)" % (nm[:60], key),
                    {"name": nm}, readable if len(nm) < 100 else {"note": "long name"},
-                   explain=('(att2idx "%s"%%string, att2name "%s"%%string, datadesc T "%s"%%string)' % (nm, nm, nm)) if len(nm) < 100 else None)
+                   explain=('(att2idx "%s"%%string, att2name "%s"%%string, datadesc T "%s"%%string)' % (nm, nm, nm)) if len(nm) < 100 else None,
+                   spec=["att", nm])
             em.direct_evaluations += 1
             em.count("kind." + ("plain" if nm == key else "indexed%d" % (nm.count("_") - key.count("_"))))
             want_desc = tabs.DF[key][3]
@@ -169,7 +170,7 @@ def main():
                 em.add("obs_arrays T %s (unpack %s)" % (vlib.zlit(label), bl), exp, fl, "array helpers on a %s message" % ident,
                        {"payload": payload.hex(), "labelmsm": label}, {"parse_msm": repr(r)[:600], "parse_4076_201": repr(h)[:600]},
                        explain="match construct T (Some (unpack %s)) %s with Ok o => (parse_msm T o, parse_4076_201 T o) | _ => (Unmodelled \"construct\", Unmodelled \"construct\") end" % (bl, vlib.zlit(label)),
-                       size=len(payload))
+                       size=len(payload), spec=["arrays", payload.hex(), label])
                 em.count("kind." + ("msm" if ident in tabs.M else "4076_201" if ident == "4076_201" else "other"))
                 em.direct_evaluations += 1
                 if m is None:
